@@ -43,7 +43,7 @@ func (e *Engine) TranslateFunc(key string) *FuncVC {
 	var known map[string]Sort
 	var vc *FuncVC
 	for pass := 1; pass <= 2; pass++ {
-		tr := &fnTrans{eng: e, fn: fn, spec: spec, key: key, pass: pass, known: known}
+		tr := &fnTrans{eng: e, fn: fn, spec: spec, key: key, pass: pass, known: known, renamed: e.renamedLocals(key, fn)}
 		vc = tr.run()
 		if vc.Err != nil {
 			return vc
@@ -615,6 +615,17 @@ func domDepth(b *ssa.BasicBlock) int {
 }
 
 func (tr *fnTrans) resolveVarAt(name string, at *ssa.BasicBlock, pointIdx int, st *State, ov map[ssa.Value]Term) (Term, bool) {
+	t, ok := tr.resolveVarAt1(name, at, pointIdx, st, ov)
+	if !ok {
+		// a local that was renamed since the reference tree: same position in declaration order
+		if nn, has := tr.renamed[name]; has {
+			return tr.resolveVarAt1(nn, at, pointIdx, st, ov)
+		}
+	}
+	return t, ok
+}
+
+func (tr *fnTrans) resolveVarAt1(name string, at *ssa.BasicBlock, pointIdx int, st *State, ov map[ssa.Value]Term) (Term, bool) {
 	if name == "rangeidx" {
 		for b := at; b != nil; b = b.Idom() {
 			for _, ins := range b.Instrs {
